@@ -35,6 +35,7 @@ type Profile struct {
 	DecayBias   float64         // probability that an asset decays (default 0.35)
 	MinAssets   int             // at least this many assets (C19: several assets and reward denoms per validator)
 	JailOnly    float64         // per run: downtime slash fraction 0, validators are jailed (leave the bonded set) without any value change and without a slash callback
+	PFlood      float64         // per run: a flood (every delegator on every validator in every denom, then 18 blocks in which everybody exits a little from one validator: more than 100 delegation records, queue buckets and index keys of one validator), a slash of that validator and a jump past all completion times
 	NoLongAddr  bool            // every delegator has a key (the ABCI differential signs transactions)
 	PDrain      float64         // per block: start a drain (every known position of one asset exits in full over two blocks, then a new staking cycle begins)
 	PBurst      float64         // per block: start a packed scenario (same-block multi-denom/multi-validator exits, fan-in redelegations, ...)
@@ -167,6 +168,7 @@ type genState struct {
 	unbondNs    int64
 	futureOps   map[int][]Op // block index -> ops scheduled by a burst
 	futureSlash map[int][]Op
+	forceDt     map[int]DtSpec // block gaps fixed by a flood
 }
 
 func (g *genState) amtDelegate(denom int) *Amt {
@@ -456,12 +458,44 @@ var slashFractions = []string{"0.0001", "0.01", "0.05", "0.5", "1", "0.25", "0.9
 // the system: the schedule is written first and only then executed.
 func GenSchedule(prop string, seed, run uint64, p *Profile) *Schedule {
 	rng := NewRNG(mixSeed(seed, propOrdinal(prop), run))
+	flood := p.PFlood > 0 && rng.Chance(p.PFlood)
+	if flood {
+		// a world large enough for counts above 100: six delegators, five or six validators, three or four assets,
+		// an unbonding time that outlasts the flood
+		pp := *p
+		pp.MinAssets, pp.ShortUnbond = 3, 0
+		p = &pp
+	}
 	cfg := genConfig(rng, p)
+	if flood {
+		cfg.Delegators = 6
+		for len(cfg.Validators) < 5 {
+			cfg.Validators = append(cfg.Validators, ValCfg{SelfBond: "5000000", Commission: "0.05"})
+		}
+		if cfg.MaxValidators < uint32(len(cfg.Validators)) {
+			cfg.MaxValidators = uint32(len(cfg.Validators))
+		}
+		if cfg.UnbondingTimeNs < int64(time.Hour) {
+			cfg.UnbondingTimeNs = int64(time.Hour)
+		}
+		for i := range cfg.Assets {
+			cfg.Assets[i].Genesis = true
+		}
+	}
 	s := &Schedule{Version: 1, Property: prop, Seed: seed, Run: run, Config: cfg, Mode: "open"}
-	g := &genState{rng: rng, p: p, cfg: &s.Config, nvals: len(cfg.Validators), absent: map[int]int{}, unbondNs: cfg.UnbondingTimeNs, futureOps: map[int][]Op{}, futureSlash: map[int][]Op{}}
+	g := &genState{rng: rng, p: p, cfg: &s.Config, nvals: len(cfg.Validators), absent: map[int]int{}, unbondNs: cfg.UnbondingTimeNs, futureOps: map[int][]Op{}, futureSlash: map[int][]Op{}, forceDt: map[int]DtSpec{}}
 	nb := rng.Range(p.MinBlocks, p.MaxBlocks)
+	if flood {
+		if nb < 36 {
+			nb = 36
+		}
+		g.flood(rng.Range(2, nb-32))
+	}
 	for bi := 0; bi < nb; bi++ {
 		b := Block{Dt: g.genDt(), Proposer: rng.Intn(8)}
+		if d, ok := g.forceDt[bi]; ok {
+			b.Dt = d
+		}
 		// absent runs (F2)
 		if rng.Chance(p.PDowntime) {
 			g.absent[rng.Intn(g.nvals)] = int(cfg.SignedWindow) + rng.Range(1, 4)
@@ -568,6 +602,7 @@ func profileForTier(prop string) *Profile {
 		p.Dust = 0.3
 		p.PHalt = 0.08
 	case "C06", "C07", "C08":
+		p.PFlood = 0.04
 		p.PBurst = 0.15
 		p.PSlash, p.PEvidence, p.PDowntime = 0.18, 0.06, 0.05
 		p.W["undelegate"], p.W["redelegate"] = 22, 24
@@ -576,6 +611,7 @@ func profileForTier(prop string) *Profile {
 		p.PBoundary = 0.3
 		p.MaxBlocks = 45
 	case "C02":
+		p.PFlood = 0.04
 		p.PBurst = 0.12
 		p.W["undelegate"] = 30
 		p.W["gov_staking_params"] = 3
@@ -592,6 +628,7 @@ func profileForTier(prop string) *Profile {
 		p.W["claim"] = 14
 		p.MinAssets = 3
 	case "C18":
+		p.PFlood = 0.05
 		p.PBurst = 0.1
 		p.PExport = 0.12
 		p.MaxBlocks = 40
@@ -659,6 +696,7 @@ func profileForTier(prop string) *Profile {
 		p.PSlash, p.PEvidence, p.PDowntime = 0.12, 0.05, 0.05
 		p.MaxBlocks = 40
 	case "C20":
+		p.PFlood = 0.04
 		p.PBurst = 0.12
 		p.W["undelegate"], p.W["redelegate"] = 26, 22
 		p.SameBlock = 0.75
@@ -691,6 +729,40 @@ func describeProfile(p *Profile) string {
 // burst schedules a packed scenario over the next few blocks: the situations the properties single
 // out (several exits of one delegator in one block across validators/denoms, fan-in redelegations,
 // a destination emptied before the source is slashed) are rare under independent random ops.
+// flood: counts above 100. Two blocks in which every delegator takes a position on every validator in every denom
+// (more than 100 delegation records), then 18 closely spaced blocks in which every delegator withdraws a little
+// from one validator in every denom (more than 100 queue buckets, more than 300 index keys of that validator),
+// then a slash of that validator, and finally one gap that lets everything mature at once.
+func (g *genState) flood(at int) {
+	r := g.rng
+	nd, nv, na := g.cfg.Delegators, g.nvals, len(g.cfg.Assets)
+	target := r.Intn(nv)
+	for w := 0; w < nd; w++ {
+		for v := 0; v < nv; v++ {
+			for d := 0; d < na; d++ {
+				unit := mustInt(g.cfg.Assets[d].Unit)
+				bi := at + (w+v+d)%2
+				g.futureOps[bi] = append(g.futureOps[bi], Op{K: "delegate", Who: w, Val: v, Denom: d, Amt: &Amt{Abs: unit.MulRaw(int64(r.Range(20, 60))).String()}})
+				g.addPos(w, v, d)
+			}
+		}
+	}
+	g.forceDt[at+1] = DtSpec{Ns: int64(r.Range(1, 3)) * int64(time.Second)}
+	for k := 0; k < 18; k++ {
+		bi := at + 2 + k
+		g.forceDt[bi] = DtSpec{Ns: int64(r.Range(1, 4)) * int64(time.Second)}
+		for w := 0; w < nd; w++ {
+			for d := 0; d < na; d++ {
+				g.futureOps[bi] = append(g.futureOps[bi], Op{K: "undelegate", Who: w, Val: target, Denom: d, Amt: &Amt{Pct: r.Range(1, 4)}})
+			}
+		}
+	}
+	g.forceDt[at+20] = DtSpec{Ns: int64(r.Range(1, 4)) * int64(time.Second)}
+	g.futureSlash[at+20] = append(g.futureSlash[at+20], Op{K: "slash_direct", Val: target, Fraction: slashFractions[r.Intn(len(slashFractions))], Age: 1})
+	g.forceDt[at+21] = DtSpec{Ns: int64(r.Range(1, 4)) * int64(time.Second)}
+	g.forceDt[at+22] = DtSpec{Ns: g.unbondNs + int64(time.Minute)}
+}
+
 // drain: every known position of one asset exits in full (largest validators in no particular order) over
 // two blocks, so that the asset's staked total returns to zero with rounding dust from earlier take-rate
 // deductions and slashes still around; then a second staking cycle starts.
